@@ -37,8 +37,12 @@ const KF_ERRPATH: &str = "KF-C09-02";
 
 #[derive(Clone, Debug, Serialize, Deserialize)]
 struct WriteSpec {
-    value_len: u16,
+    value_len: u32,
     stamp: u64,
+    /// > 0: a large write; the value length is chosen so that the SERIALIZED delta (the WAL
+    /// payload) is exactly this many bytes (`value_len` is ignored)
+    #[serde(default)]
+    serialized_target: u32,
 }
 
 #[derive(Clone, Debug, Serialize, Deserialize)]
@@ -68,12 +72,23 @@ fn fault_kind() -> impl Strategy<Value = Fault> {
     ]
 }
 
-fn workload() -> impl Strategy<Value = Workload> {
-    let write = (
-        prop_oneof![3 => 0u16..24, 2 => 24u16..120, 1 => 120u16..400],
+fn small_write() -> impl Strategy<Value = WriteSpec> {
+    (
+        prop_oneof![3 => 0u32..24, 2 => 24u32..120, 1 => 120u32..400],
         prop_oneof![4 => 0u64..50, 1 => any::<u64>()],
     )
-        .prop_map(|(value_len, stamp)| WriteSpec { value_len, stamp });
+        .prop_map(|(value_len, stamp)| WriteSpec {
+            value_len,
+            stamp,
+            serialized_target: 0,
+        })
+}
+
+fn faults() -> impl Strategy<Value = Vec<FaultSpec>> {
+    proptest::collection::vec((any::<u16>(), fault_kind()).prop_map(|(at, kind)| FaultSpec { at, kind }), 0..=3)
+}
+
+fn small_workload() -> impl Strategy<Value = Workload> {
     (
         1u8..=8,
         prop_oneof![
@@ -85,8 +100,8 @@ fn workload() -> impl Strategy<Value = Workload> {
             // never rotates
             1 => Just(1u32 << 24),
         ],
-        proptest::collection::vec(proptest::collection::vec(write, 1..=12), 1..=4),
-        proptest::collection::vec((any::<u16>(), fault_kind()).prop_map(|(at, kind)| FaultSpec { at, kind }), 0..=3),
+        proptest::collection::vec(proptest::collection::vec(small_write(), 1..=12), 1..=4),
+        faults(),
         prop::bool::weighted(0.25),
     )
         .prop_map(
@@ -98,6 +113,104 @@ fn workload() -> impl Strategy<Value = Workload> {
                 shutdown_behind_last_wave,
             },
         )
+}
+
+/// Serialized payload sizes aimed at powers of two and their neighbours.
+fn big_size() -> impl Strategy<Value = u32> {
+    prop_oneof![
+        4 => prop_oneof![Just(65_535u32), Just(65_536u32), Just(65_537u32)],
+        6 => (-64i32..=64).prop_map(|d| (1_048_576 + d) as u32),
+        3 => prop_oneof![Just(1_048_576u32 - 16), Just(1_048_576u32), Just(1_048_577u32), Just(1_048_576u32 + 16)],
+        1 => Just(2 * 1_048_576u32),
+        1 => Just(4 * 1_048_576u32 + 1),
+    ]
+}
+
+/// Mostly small writes plus 1..2 large ones, placed first / middle / last in a wave, with a
+/// rotation threshold that never rotates / rotates right behind the large entry / is smaller
+/// than any entry / holds a few small entries.
+fn large_workload() -> impl Strategy<Value = Workload> {
+    (
+        1u8..=8,
+        prop_oneof![3 => Just(0u8), 2 => Just(1u8), 1 => Just(2u8), 1 => Just(3u8)],
+        proptest::collection::vec(proptest::collection::vec(small_write(), 0..=6), 1..=2),
+        proptest::collection::vec(
+            (big_size(), prop_oneof![4 => 0u64..50, 1 => any::<u64>()], any::<u16>(), prop_oneof![Just(0u16), Just(32_768u16), Just(65_535u16), any::<u16>()]),
+            1..=2,
+        ),
+        faults(),
+        prop::bool::weighted(0.25),
+    )
+        .prop_map(|(group_commit_max_entries, mfs_mode, mut waves, bigs, faults, shutdown_behind_last_wave)| {
+            let first_big = bigs[0].0;
+            for (size, stamp, wave, pos) in bigs {
+                let wi = ((wave as usize) * waves.len()) >> 16;
+                let at = ((pos as usize) * (waves[wi].len() + 1)) >> 16;
+                waves[wi].insert(
+                    at,
+                    WriteSpec {
+                        value_len: 0,
+                        stamp,
+                        serialized_target: size,
+                    },
+                );
+            }
+            waves.retain(|w| !w.is_empty());
+            Workload {
+                group_commit_max_entries,
+                max_file_size: match mfs_mode {
+                    0 => 1u32 << 30,
+                    1 => first_big + 400,
+                    2 => 17,
+                    _ => 300,
+                },
+                waves,
+                faults,
+                shutdown_behind_last_wave,
+            }
+        })
+}
+
+/// One wave with more concurrent writers than the actor's channel holds (256), and
+/// group-commit sizes up to the production default and beyond.
+fn wide_workload() -> impl Strategy<Value = Workload> {
+    (
+        prop_oneof![2 => 1u8..=8, 1 => Just(64u8), 1 => Just(255u8)],
+        prop_oneof![1 => Just(17u32), 2 => 80u32..1500, 1 => Just(1u32 << 24)],
+        257usize..=300,
+        (0u32..12, 0u64..50),
+        faults(),
+        prop::bool::weighted(0.25),
+    )
+        .prop_map(|(group_commit_max_entries, max_file_size, n, (value_len, stamp), faults, shutdown_behind_last_wave)| Workload {
+            group_commit_max_entries,
+            max_file_size,
+            waves: vec![(0..n)
+                .map(|i| WriteSpec {
+                    value_len: value_len + (i % 3) as u32,
+                    stamp: stamp + (i % 7) as u64,
+                    serialized_target: 0,
+                })
+                .collect()],
+            faults,
+            shutdown_behind_last_wave,
+        })
+}
+
+fn workload() -> impl Strategy<Value = Workload> {
+    prop_oneof![
+        185 => small_workload(),
+        12 => large_workload(),
+        3 => wide_workload(),
+    ]
+}
+
+fn is_large(w: &Workload) -> bool {
+    w.waves.iter().flatten().any(|x| x.serialized_target > 0)
+}
+
+fn is_wide(w: &Workload) -> bool {
+    w.waves.iter().any(|v| v.len() > 64)
 }
 
 // ---------------------------------------------------------------------------------------
@@ -125,16 +238,36 @@ fn make_deltas(w: &Workload) -> Vec<(Arc<ReplicationDelta>, Vec<u8>, u64)> {
     for wave in &w.waves {
         for ws in wave {
             let rid = ReplicaId::new(1 + (idx as u64 % 3));
-            let value = vec![(idx as u8).wrapping_mul(37).wrapping_add(1); ws.value_len as usize];
-            let rv = ReplicatedValue::with_value(
-                SDS::new(value),
-                LamportClock {
-                    time: ws.stamp,
-                    replica_id: rid,
-                },
-            );
-            let delta = ReplicationDelta::new(format!("w{}", idx), rv, rid);
-            let bytes = bincode::serialize(&delta).expect("bincode of a delta");
+            let mk = |n: usize| {
+                let value = vec![(idx as u8).wrapping_mul(37).wrapping_add(1); n];
+                let rv = ReplicatedValue::with_value(
+                    SDS::new(value),
+                    LamportClock {
+                        time: ws.stamp,
+                        replica_id: rid,
+                    },
+                );
+                let delta = ReplicationDelta::new(format!("w{}", idx), rv, rid);
+                let bytes = bincode::serialize(&delta).expect("bincode of a delta");
+                (delta, bytes)
+            };
+            let (delta, bytes) = if ws.serialized_target == 0 {
+                mk(ws.value_len as usize)
+            } else {
+                // aim at the serialized size
+                let target = ws.serialized_target as usize;
+                let base = mk(0).1.len();
+                let mut n = target.saturating_sub(base);
+                let mut r = mk(n);
+                for _ in 0..3 {
+                    if r.1.len() == target {
+                        break;
+                    }
+                    n = (n + target).saturating_sub(r.1.len());
+                    r = mk(n);
+                }
+                r
+            };
             out.push((Arc::new(delta), bytes, ws.stamp));
             idx += 1;
         }
@@ -255,13 +388,20 @@ enum Cause {
     Other(String),
 }
 
-fn cause(log: &[Rec], a: usize) -> Cause {
+fn cause(log: &[Rec], a: usize, c: usize) -> Cause {
     let file = &log[a].file;
     let synced_later = log[a + 1..].iter().any(|r| r.op == Op::Sync && &r.file == file);
     for r in &log[a + 1..] {
         match r.op {
             Op::Sync if &r.file == file => {
-                return Cause::Other(if r.ok {
+                let si = a + 1 + log[a + 1..].iter().position(|x| std::ptr::eq(x, r)).unwrap_or(0);
+                return Cause::Other(if r.ok && si < c {
+                    format!(
+                        "its bytes ARE in the durable image (appended completely, covered by the successful fsync call #{}), but recovery does not return it: writer and reader disagree about what a valid entry is ({} payload bytes)",
+                        si,
+                        log[a].requested.saturating_sub(16)
+                    )
+                } else if r.ok {
                     "acknowledged before the fsync that covers it".to_string()
                 } else {
                     "the fsync that should cover it failed, yet the write was acknowledged".to_string()
@@ -399,7 +539,7 @@ fn check_run(
             }
             let why = match appended_at.get(&wi) {
                 None => Cause::Other("its bytes were never completely appended to any file".to_string()),
-                Some(&a) => cause(&r.log, a),
+                Some(&a) => cause(&r.log, a, c),
             };
             let (id, text) = match &why {
                 Cause::RotatedUnsynced => (
@@ -530,8 +670,22 @@ fn check_workload(w: &Workload, ctx: &mut CaseCtx<'_>) -> Result<(), String> {
     }
 
     // ---- every single-fault placement over the calls of the fault-free run
+    //      (workloads with large entries: every fsync fault only; > 256 writers: none;
+    //      to keep the cost per workload bounded; they are labelled)
+    let reduced = is_large(w) || is_wide(w);
+    if is_large(w) {
+        ctx.label("large_entry(fsync_faults_only)");
+        let mx = deltas.iter().map(|d| d.1.len()).max().unwrap_or(0);
+        ctx.label(if mx > (1 << 20) { "large_entry>1MiB" } else { "large_entry<=1MiB" });
+    }
+    if is_wide(w) {
+        ctx.label("wide_wave>256_writers(fault_free+script_only)");
+    }
     for i in 0..n0 {
         for kind in kinds_for(&free.log[i]) {
+            if (reduced && kind != Fault::FsyncFail) || is_wide(w) {
+                continue;
+            }
             let fl = [(i as u64, kind)];
             let r = run(w, &deltas, &fl)?;
             if r.log.get(i).map(|x| x.fault.is_some()) != Some(true) {
@@ -582,8 +736,12 @@ fn check_workload(w: &Workload, ctx: &mut CaseCtx<'_>) -> Result<(), String> {
 
 // ---------------------------------------------------------------------------------------
 
-fn ws(value_len: u16, stamp: u64) -> WriteSpec {
-    WriteSpec { value_len, stamp }
+fn ws(value_len: u32, stamp: u64) -> WriteSpec {
+    WriteSpec {
+        value_len,
+        stamp,
+        serialized_target: 0,
+    }
 }
 
 fn main() {
